@@ -524,6 +524,9 @@ VALUE_CASES = [
      'run % probe @[\u00e9]@ "a @[gr\u00f6\u00dfe2]@ b" pre@[\u00e9]@post @[\u540d\u524d]@ "@[\u540d\u524d]@" @[p\u00e9]@/leaf @[x\u0663]@',
      ['e-acute', 'a G b', 'pree-acutepost', 'n1', 'n 2', 'n1 n 2', '<ACT>/pp/leaf', 'd']),
     (["def string \u00e9 = 'v'", 'def string \u00e92 = "@[\u00e9]@@[\u00e9]@"', 'def list L\u00e9 = @[\u00e92]@ x'], 'run % probe @[L\u00e9]@', ['vv', 'x']),
+    # an opener `@[` that is never completed, directly before real references (strings, a list inside a string)
+    (["def string A = 'v'", 'def list L = a b', 'def string B = "<@[@[A]@>"', 'def string C = "@[_@[L]@"', 'def string D = x@[y1@[A]@@[A]@'], 'run % probe @[B]@ @[C]@ @[D]@',
+     ['<@[v>', '@[_a b', 'x@[y1vv']),
 ]
 
 
